@@ -331,6 +331,57 @@ def run(rep, tier, rng):
                                "    with spa.Network():\n        " + label.replace("as_ast_node", "spa.connectors.as_ast_node").replace("State(", "spa.State(") + "\n"
                                "assert any(issubclass(w.category, NengoWarning) for w in rec), 'no warning about the missing key'\nassert list(target.keys()) == ['A']\n"})
 
+    _sv = lambda dd_, i_: [((i_ + 1) * (j_ + 2) * 7 + i_ * i_) % 11 - 5 for j_ in range(dd_)]  # noqa
+    # ---- a subset is a vocabulary of its own: whatever keys were selected, growing one never shows in the other ------------------
+    for al in algs.ALGS:
+        for sel in (["A", "B", "Cc"], ["A"], ["Cc", "A"], ["B", "Cc"]):
+            A = algs.alg_obj(al)
+            voc = spa.Vocabulary(4, algebra=A, pointer_gen=np.random.RandomState(1))
+            for i, k in enumerate(["A", "B", "Cc"]):
+                voc.add(k, np.array(_sv(4, i), float))
+            sub = voc.create_subset(sel)
+            rep.case(("subset-independent", al, tuple(sel)))
+            rep.count("subset-independent")
+            problems = []
+            if list(sub.keys()) != sel or not all(np.array_equal(sub[k].v, voc[k].v) for k in sel):
+                problems.append(f"subset holds {list(sub.keys())}")
+            sub.add("New1", np.array(_sv(4, 5), float))
+            if list(voc.keys()) != ["A", "B", "Cc"] or len(voc) != 3 or len(voc.vectors) != 3 or "New1" in voc:
+                problems.append(f"adding to the subset changed the original: keys {list(voc.keys())}, len {len(voc)}")
+            voc.add("New2", np.array(_sv(4, 6), float))
+            if list(sub.keys()) != sel + ["New1"] or "New2" in sub or len(sub.vectors) != len(sel) + 1:
+                problems.append(f"adding to the original changed the subset: keys {list(sub.keys())}")
+            if problems:
+                rep.violation(f"create_subset({sel}) of a vocabulary with keys A, B, Cc is not an independent vocabulary ({al}): " + "; ".join(problems),
+                              {"case": {"alg": al, "keys": sel},
+                               "python": "import numpy as np, nengo_spa as spa\nv = spa.Vocabulary(16); v.populate('A; B; Cc')\n"
+                                         f"s = v.create_subset({sel!r}); s.populate('New1')\nassert list(v.keys()) == ['A', 'B', 'Cc'], list(v.keys())\n"
+                                         f"v.populate('New2')\nassert list(s.keys()) == {sel + ['New1']!r}, list(s.keys())\n"})
+
+    # ---- translation between vocabularies of different algebras: the result is a pointer of the target vocabulary ------------
+    for al1 in algs.ALGS:
+        for al2 in algs.ALGS:
+            if al1 == al2:
+                continue
+            s2 = spa.Vocabulary(4, algebra=algs.alg_obj(al1))
+            t2 = spa.Vocabulary(4, algebra=algs.alg_obj(al2))
+            for i_, k_ in enumerate(["A", "B"]):
+                s2.add(k_, np.array(_sv(4, i_), float))
+                t2.add(k_, np.array(_sv(4, i_ + 3), float))
+            Tm = sum(np.outer(t2[k_].v, s2[k_].v) for k_ in ("A", "B"))
+            for label, fn in (("source['A'].translate(target)", lambda: s2["A"].translate(t2, populate=False)),
+                              ("spa.translate(source['B'], target)", lambda: spa.translate(s2["B"], t2, populate=False)),
+                              ("PointerSymbol('A', TVocabulary(source)).translate(target).evaluate()", lambda: PointerSymbol("A", TVocabulary(s2)).translate(t2, populate=False).evaluate())):
+                o = c.outcome(fn)
+                src_v = s2["B"].v if "'B'" in label else s2["A"].v
+                rep.case(("translate-across-algebras", al1, al2, label))
+                rep.count("translate-across-algebras")
+                if o[0] != "ok" or o[1].vocab is not t2 or o[1].algebra is not t2.algebra or not np.allclose(o[1].v, Tm @ src_v, atol=1e-9):
+                    rep.violation(f"{label} from a {al1} into a {al2} vocabulary: " + (f"raised {o[0]}: {str(o[1])[:80]}" if o[0] != "ok" else
+                                  f"vocabulary is target: {o[1].vocab is t2}, algebra is the target's: {o[1].algebra is t2.algebra}, value {np.round(o[1].v, 3).tolist()}"),
+                                  {"case": {"from": al1, "to": al2, "entry_point": label}, "expected": (Tm @ src_v).tolist(),
+                                   "python": PRE + algs.PRELUDE + f"source = spa.Vocabulary(4, algebra={algs.alg_py(al1)}); target = spa.Vocabulary(4, algebra={algs.alg_py(al2)})\n"
+                                   "source.populate('A; B'); target.populate('A; B')\nr = source['A'].translate(target, populate=False)\nassert r.vocab is target and r.algebra is target.algebra\n"})
     verdicts = c.coq_eval("C13", "cases", IMPORTS, exprs, shard=150)
     for ok, m in zip(verdicts, meta):
         if ok:
